@@ -6,12 +6,12 @@ from checks import session_common as sc
 META = {
     "technique": "Lean 4 theorems on the session model (commit = preview, select-to-end, delivery log refinement) + differential correspondence",
     "level": "proof",
-    "level_text": ("Theorems C03.commit_eq_preview, select_to_end, commit_clears(_concrete), read_returns_buffer, second_read_empty, "
+    "level_text": ("Theorems C03.commit_eq_preview, select_to_end(_reachable), select_on_page_index, commit_clears(_concrete), read_returns_buffer, second_read_empty, "
                    "delivery_exactly_once, getCommit_refines_read about the session model (unbounded: any state, any buffer history); "
                    "the model is run op-for-op against the real engine (including the un-read commit buffer and candidate end "
                    "positions) and the four clauses are also monitored directly on the implementation's outputs."),
-    "level_note": ("Trusted: Lean kernel; keymap translator; model tied by differential runs. select_to_end assumes the reached state has "
-                   "|composition input| <= |raw input| (monitored, not yet an invariant theorem) and option `dumb` off; full_shape off "
+    "level_note": ("Trusted: Lean kernel; keymap translator; model tied by differential runs. select_to_end's length hypothesis "
+                   "|composition input| <= |raw input| is an invariant of every reachable state (select_to_end_reachable); option `dumb` off; full_shape off "
                    "(formatter is a parameter of the theorems); switcher menu not modelled (out of the property's scope)."),
     "design_ref": "DESIGN.md §2 M-session, §3 C03",
 }
